@@ -595,6 +595,85 @@ static void sec_local(Ctx& c, uint64_t idx) {
   }
 }
 
+// ------------------------------------------------------------------ section: object histories of ONE LocalCartesian
+// A random sequence of Reset calls (new origin; same lat/lon with another height; same origin again; lon +- 360 k; lat as -0/+0;
+// only lat or only lon changed) on one object that was default-constructed, constructed from a Geocentric, or constructed with an
+// origin, interleaved with Forward / Reverse / matrix calls and the inspectors.  After every step the object must be
+// indistinguishable, bit for bit, from a FRESH object constructed directly with the arguments of the latest Reset, and must map
+// its origin to (0,0,0).
+static bool same_as_fresh(Ctx& c, const LocalCartesian& A, const LocalCartesian& F, const Ell& E, std::string& what) {
+  vh::Rng& r = c.rng; std::string t1, t2;
+  for (int k = 0; k < 2; ++k) {
+    double la = gen_lat(r, t1), lo = gen_lon(r), hh = gen_h(r, E, t2); if (std::fabs(hh) > 1e6 * E.a) hh = r.sign() * r.logu(1, 1e6) * E.a;
+    double xa, ya, za, xf, yf, zf; std::vector<double> Ma(9, 1.5), Mf(9, 1.5);
+    if (k) { A.Forward(la, lo, hh, xa, ya, za, Ma); F.Forward(la, lo, hh, xf, yf, zf, Mf); } else { A.Forward(la, lo, hh, xa, ya, za); F.Forward(la, lo, hh, xf, yf, zf); }
+    if (!(bits_eq(xa, xf) && bits_eq(ya, yf) && bits_eq(za, zf))) { what = "Forward"; return false; }
+    for (int i = 0; i < 9; ++i) if (!bits_eq(Ma[i], Mf[i])) { what = "Forward matrix"; return false; }
+    double x = r.sign() * r.logu(1e-6, 10) * E.a, y = r.sign() * r.logu(1e-6, 10) * E.a, z = r.coin(0.3) ? 0.0 : r.sign() * r.logu(1e-6, 10) * E.a;
+    if (r.coin(0.2)) x = y = 0;
+    double l1, o1, h1, l2, o2, h2;
+    if (k) { A.Reverse(x, y, z, l1, o1, h1, Ma); F.Reverse(x, y, z, l2, o2, h2, Mf); } else { A.Reverse(x, y, z, l1, o1, h1); F.Reverse(x, y, z, l2, o2, h2); }
+    if (!(bits_eq(l1, l2) && bits_eq(o1, o2) && bits_eq(h1, h2))) { what = "Reverse"; return false; }
+    for (int i = 0; i < 9; ++i) if (!bits_eq(Ma[i], Mf[i])) { what = "Reverse matrix"; return false; }
+  }
+  return true;
+}
+static void sec_hist(Ctx& c, uint64_t) {
+  vh::Rng& r = c.rng; Ell E = r.coin(0.4) ? r.pick(WGSLIKE) : pick_ell(r);
+  const int ctor = (int)r.below(3);                    // 0 default (WGS84), 1 from a Geocentric, 2 with an origin
+  if (ctor == 0) E = {AW, FW};
+  Geocentric Gown(E.a, E.f); const Geocentric& G = ctor == 0 ? Geocentric::WGS84() : Gown;
+  ref::CartEll<q128> Q(E.a, E.f);
+  std::string t; double lat = 0, lon = 0, h = 0;       // arguments of the latest Reset / constructor = the current origin
+  if (ctor == 2) { lat = gen_lat(r, t); lon = gen_lon(r); h = r.coin(0.3) ? 0.0 : r.uniform(-1e4, 1e7) * (E.a / 6.4e6); }
+  LocalCartesian Ad, Ag(G), Ao(lat, lon, h, G);
+  LocalCartesian& A = ctor == 0 ? Ad : ctor == 1 ? Ag : Ao;
+  const char* cname = ctor == 0 ? "default-constructed" : ctor == 1 ? "constructed-from-Geocentric" : "constructed-with-origin";
+  const int nops = r.range(4, 16); std::string log; uint64_t hsh = vh::hmix(vh::hmix(vh::hmix(ell_h(E), lat), lon), h);
+  for (int op = 0; op <= nops; ++op) {
+    std::string kind = "initial";
+    if (op > 0) {
+      switch (r.below(9)) {
+      case 0: case 1: kind = "same-latlon-new-height"; h = r.coin(0.2) ? 0.0 : r.coin() ? h + r.sign() * r.logu(1e-6, 1e6) : r.uniform(-1e4, 1e7) * (E.a / 6.4e6); break;
+      case 2: kind = "same-origin-again"; break;
+      case 3: { kind = "lon-shifted-by-360k"; double l2 = lon + 360.0 * r.range(-3, 3); lon = l2; if (r.coin()) h = r.uniform(-1e4, 1e4); break; }
+      case 4: kind = "lat-sign-of-zero-or-same-lat"; if (lat == 0) lat = -lat; lon = gen_lon(r); break;
+      case 5: kind = "same-lon-new-lat"; lat = gen_lat(r, t); if (r.coin()) h = r.uniform(-1e4, 1e4); break;
+      case 6: kind = "back-to-000"; lat = 0; lon = 0; h = r.coin() ? 0.0 : r.uniform(-1e4, 1e4); break;
+      default: kind = "new-origin"; lat = gen_lat(r, t); lon = gen_lon(r); h = r.coin(0.3) ? 0.0 : r.uniform(-1e4, 1e7) * (E.a / 6.4e6); break;
+      }
+      if (r.coin(0.15)) { LocalCartesian B(A); B.Reset(gen_lat(r, t), gen_lon(r), 7.0); kind += "+copy-reset-elsewhere"; }   // a copy must not share state
+      if (h == 0 && r.coin(0.3)) A.Reset(lat, lon); else A.Reset(lat, lon, h);      // h0 has a default argument
+    }
+    hsh = vh::hmix(vh::hmix(vh::hmix(hsh, lat), lon), h);
+    if (log.size() < 400) log += (log.empty() ? "" : " | ") + kind + "(" + vh::jnum(lat) + "," + vh::jnum(lon) + "," + vh::jnum(h) + ")";
+    const std::string cls = std::string("hist/") + cname + "/" + kind.substr(0, kind.find('+'));
+    c.count(cls, hsh);
+    J wit = J().f("a", E.a).f("f", E.f).str("object", cname).i("step", op).str("history", log).f("lat0", lat).f("lon0", lon).f("h0", h);
+    if (c.want_sample(cls)) c.sample(cls, wit);
+    LocalCartesian F(lat, lon, h, G);                  // the fresh object
+    // inspectors
+    { q128 ln = remainderq((q128)lon, 360); if (fabsq(ln) == 180) ln = copysignq(180, (q128)lon);
+      if (!(bits_eq(A.LatitudeOrigin(), F.LatitudeOrigin()) && bits_eq(A.LongitudeOrigin(), F.LongitudeOrigin()) && bits_eq(A.HeightOrigin(), F.HeightOrigin()) &&
+            A.LatitudeOrigin() == lat && (q128)A.LongitudeOrigin() == ln && A.HeightOrigin() == h && A.EquatorialRadius() == E.a && A.Flattening() == E.f))
+        c.viol("history:C07/local/inspectors-after-reset", cls, J(wit).f("lat_o", A.LatitudeOrigin()).f("lon_o", A.LongitudeOrigin()).f("h_o", A.HeightOrigin())); }
+    // origin -> (0,0,0); Reverse(0,0,0) -> origin (through its forward image)
+    { double x, y, z; A.Forward(lat, lon, h, x, y, z); q128 r0[3]; ref::cart_forward<q128>(Q, lat, lon, h, r0); const q128 sc = lscale(Q, ref::norm3(r0));
+      double eo = (double)(hypotq(hypotq(x, y), z) / (EPS * sc));
+      c.obs("history: image of the current origin [eps*max(|r0|,a,b)]", eo, wit);
+      if (!(eo <= 1)) c.viol("history:C07/local/origin-not-zero-after-reset", cls, J(wit).f("x", x).f("y", y).f("z", z));
+      double l1, o1, h1; A.Reverse(0, 0, 0, l1, o1, h1);
+      if (std::fabs(l1) <= 90 && std::fabs(o1) <= 180 && std::isfinite(h1)) { q128 b[3]; ref::cart_forward<q128>(Q, l1, o1, h1, b);
+        double eb = (double)(qmax(ref::dist3c(b, r0) - K_Q * quantum(Q, l1, o1, h1), 0) / (EPS * sc));
+        double r0d[3]; G.Forward(lat, lon, h, r0d[0], r0d[1], r0d[2]); const bool uz = underflow_zone(E, std::hypot(r0d[0], r0d[1]), r0d[2]);
+        if (!uz) c.obs("history: Reverse(0,0,0) vs the current origin beyond K_Q ulp [eps*max(|r0|,a,b)]", eb, wit);
+        if (!(eb <= K_LOC + K_REV)) c.viol(lkey("history:C07/local/reverse-of-zero-not-origin", uz, E, eb, K_LOC + K_REV), cls, J(wit).f("lat1", l1).f("lon1", o1).f("h1", h1).f("err_eps", eb)); } }
+    // everything else: bit for bit the fresh object
+    std::string what;
+    if (!same_as_fresh(c, A, F, E, what)) c.viol("history:C07/local/reset-differs-from-fresh-object", cls, J(wit).str("differs_in", what));
+  }
+}
+
 // ------------------------------------------------------------------ section: oracle self-validation (failures are harness errors)
 static void sec_self(Ctx& c, uint64_t idx) {
   vh::Rng& r = c.rng; Ell E = pick_ell(r); ref::CartEll<q128> Q(E.a, E.f); ref::CartEll<long double> L(E.a, E.f);
@@ -639,6 +718,7 @@ int main(int argc, char** argv) {
   S.push_back({"fwd", 60000, 3000000, true, sec_fwd});
   S.push_back({"nm", 60000, 2000000, true, sec_nm});
   S.push_back({"local", 10000, 500000, true, sec_local});
+  S.push_back({"hist", 12000, 400000, true, sec_hist});
   S.push_back({"self", 2000, 50000, true, sec_self});
   return vh::run_sections(argc, argv, S);
 }
